@@ -39,8 +39,9 @@ def automutants():
         else:
             c["survive the suite, reported by no check"] += 1
             und.append(d)
-    out = [f"{len(recs)} mutants were tried: " + "; ".join(f"{v} {k}" for k, v in c.items()) + ".",
-           "First reporter of the detected survivors: " + ", ".join(f"{k} {v}" for k, v in sorted(by_check.items())) + ".", "",
+    sep = sum(1 for d in recs if d.get("verified_separately"))
+    out = [f"{len(recs)} mutants were evaluated (of 391 sites; the rest fell to the time budget or to a hanging build script): " + "; ".join(f"{v} {k}" for k, v in c.items()) + ".",
+           "First reporter of the detected survivors: " + ", ".join(f"{k} {v}" for k, v in sorted(by_check.items())) + f" ({sep} of them by a check that was not in the list run for that file and was run separately afterwards: two hangs of the rename loop, reported by C07, and a terminal name missing from the used-identifier set, reported by C05).", "",
            "Survivors that no check reports (each inspected by hand; see the classification below the table):", "",
            "| file:line | mutation | checks run (all exit 0) |", "|---|---|---|"]
     for d in und:
